@@ -71,16 +71,16 @@ func PushCheck(sc sim.Scenario, h *sim.History) []Problem {
 	allow := sc.Cfg.AllowPush
 
 	type call struct {
-		key       int
-		inside    bool
-		kind      string // notify | callback
-		pushSeq   int
-		pushT     int64
-		deadline  int // ms, 0 = none
-		reqs      []pushReq
-		rets      []sim.Event
-		ctxEndSeq int // first event that ends its context (pushcancel / stop / peerclose / epilogue), -1 none
-		stopSeq   int // first event that ends the connection the push was made on, -1 none
+		key        int
+		inside     bool
+		kind       string // notify | callback
+		pushSeq    int
+		pushT      int64
+		deadline   int // ms, 0 = none
+		reqs       []pushReq
+		rets       []sim.Event
+		ctxEndSeq  int // first event that ends its context (pushcancel / stop / peerclose / epilogue), -1 none
+		stopSeq    int // first event that ends the connection the push was made on, -1 none
 		bad        bool
 		sendFailed bool // the channel's Send failed for its request (injected)
 	}
